@@ -2073,6 +2073,19 @@ void sm9_z256_point_add_affine(SM9_Z256_POINT *R, const SM9_Z256_POINT *P, const
 	sm9_z256_modp_sub(Z3, Z3, T1);
 	sm9_z256_modp_mont_mul(T1, T1, Z1);
 	sm9_z256_modp_mont_mul(S2, Y2, T1);
+
+	// same x coordinate: the addition formulas degenerate, P == Q doubles and P == -Q is the point at infinity
+	if (sm9_z256_is_zero(H) && !sm9_z256_is_zero(Z1)) {
+		if (sm9_z256_equ(S2, Y1)) {
+			SM9_Z256_POINT T;
+			sm9_z256_point_copy_affine(&T, Q);
+			sm9_z256_point_dbl(R, &T);
+		} else {
+			sm9_z256_point_set_infinity(R);
+		}
+		return;
+	}
+
 	sm9_z256_modp_mont_sqr(T1, H);
 	sm9_z256_modp_sub(Z3, Z3, T1);
 	sm9_z256_modp_dbl(I, T1);
